@@ -97,24 +97,21 @@ impl ContainsPoint for Triangle {
             let s = p1.y * p3.x - p1.x * p3.y + (p3.y - p1.y) * p.x + (p1.x - p3.x) * p.y;
             let t = p1.x * p2.y - p1.y * p2.x + (p1.y - p2.y) * p.x + (p2.x - p1.x) * p.y;
 
-            if (s < 0) != (t < 0) {
-                false
+            // Determinant
+            let a = self.area_doubled();
+
+            // If determinant is zero, triangle is colinear and can never contain a point.
+            if a == 0 {
+                return false;
+            }
+
+            // This check allows this algorithm to work with clockwise or counterclockwise
+            // triangles. Both `s` and `t` need to be checked explicitly, because a value of zero
+            // (point lies on the extension of an edge) has no sign that could be compared.
+            if a < 0 {
+                s <= 0 && t <= 0 && s + t >= a
             } else {
-                // Determinant
-                let a = self.area_doubled();
-
-                // If determinant is zero, triangle is colinear and can never contain a point.
-                if a == 0 {
-                    return false;
-                }
-
-                // This check allows this algorithm to work with clockwise or counterclockwise
-                // triangles.
-                if a < 0 {
-                    s <= 0 && s + t >= a
-                } else {
-                    s >= 0 && s + t <= a
-                }
+                s >= 0 && t >= 0 && s + t <= a
             }
         };
 
